@@ -58,6 +58,27 @@ def generate(tier, rng):
             trees.append(gen.labelled(sh, rng, True))
     for _ in range(200 if tier == "quick" else 4000):
         trees.append(gen.labelled(gen.random_shape(rng, rng.randrange(3, 9 if tier == "quick" else 16)), rng, True))
+    # scale: wide and deep trees
+    for sh in gen.big_shapes(rng, tier, 450):
+        t = gen.labelled(sh, rng, True)
+        sep = rng.choice(["/", "/", ";"])
+        names = rc.big_names(rng, t)
+        c = {"fam": "resolve", "tree": t, "names": names, "sep": sep, "queries": [], "unique": True, "typed": [], "cls": rng.choice([None, None, "eq", "falsy"])}
+        labs = gen.tree_labels(t)
+        dl = gen.deep_labels(t)
+        nm = dict((k, v) for k, v in names)
+        pats = (["**/**", "**/..", "**/.", "**/*/**", "**/../*", "**/**/.."] if gen.tree_size(t) <= 140 else []) + ["*", "n*", "k1*", "*7", "?1", "*/*", "**", "**/" + nm[dl[-1]], "**/n*", "*/*/*", nm[dl[min(1, len(dl) - 1)]] + "/*", "item*/**"]
+        pats += [rc.abs_path(t, names, sep, dl[-1]).replace("/", sep) if sep != "/" else rc.abs_path(t, names, sep, dl[-1]),
+                 rc.abs_path(t, names, sep, dl[len(dl) // 2]) + sep + "*", rc.rel_path(t, names, sep, dl[-1], labs[-1])]
+        for p in pats:
+            p = p.replace("/", sep) if sep != "/" and "/" in p and not p.startswith(sep) else p
+            for start in (t[0], dl[len(dl) // 2]):
+                q_ic = rng.random() < 0.3
+                for relax in (False, True):
+                    c["queries"].append({"fn": "glob", "start": start, "path": p, "ignorecase": q_ic, "relax": relax})
+                if "*" not in p and "?" not in p:
+                    c["queries"].append({"fn": "get", "start": start, "path": p, "ignorecase": q_ic, "relax": False, "pair": True})
+        yield c
     for t in trees:
         sep = rng.choice(["/", "/", "/", ";", "::"])
         ic = rng.random() < 0.4
